@@ -70,6 +70,18 @@ def run(tier):
             except Exception as ex:
                 ck.violation("GpRegressor raised on a valid problem", {**idn, **what, "error": repr(ex)[:300]}, site="GpRegressor")
                 continue
+            # a joint call with exactly as many query points as data points (the query points repeated cyclically): the same posterior, row by row
+            try:
+                nd = len(np.atleast_1d(gp.y))
+                rows = [(i + 1) % len(Q) for i in range(nd)]
+                qn = (Q[rows] + xshift) if Q.shape[1] > 1 else (Q[rows] + xshift)[:, 0]
+                mu_n, S_n = gp.build_posterior(qn)
+                mu_n, S_n = np.asarray(mu_n, dtype=float) / c_, np.asarray(S_n, dtype=float) / (c_ * c_)
+                if not (GE.close(mu_n, np.asarray(want_mu)[rows], yscale) and GE.close(S_n, np.asarray(want_cov)[np.ix_(rows, rows)], scale)):
+                    ck.violation("joint posterior at as many query points as there are data points = the exact posterior at those points",
+                                 {**idn, **what, "query_rows": rows, "want_mean": np.asarray(want_mu)[rows], "got_mean": mu_n}, site="GpRegressor.build_posterior:same-count")
+            except Exception as ex:
+                ck.violation("GpRegressor raised on a valid problem", {**idn, **what, "error": repr(ex)[:300]}, site="GpRegressor")
             if not (GE.close(mu, want_mu, yscale) and GE.close(mu2, want_mu, yscale) and GE.close(mu3, want_mu, yscale)):
                 ck.violation("predictive mean = m(q) + K_qx (K_xx + S)^-1 (y - m(x)) (point-wise, joint and mean-only calls agree)",
                              {**idn, **what, "want": want_mu, "call": mu, "build_posterior": mu2, "mean_only": mu3}, site="GpRegressor.mean")
@@ -91,6 +103,18 @@ def run(tier):
                         ck.violation("predictions depend only on the data and the current hyper-parameters (not on hyper-parameters set and used before)",
                                      {**idn, "after_change": mu_o, "fresh_regressor_same_state": mu_f, "first": mu, "after_restoring": mu_r},
                                      site="GpRegressor.set_hyperparameters:stale-state")
+                    # ... and the public scores evaluated at OTHER hyper-parameters in between (a scan of the likelihood surface) leave them alone
+                    other = hp + 0.61
+                    for fn in ("marginal_likelihood", "loo_likelihood", "marginal_likelihood_gradient", "loo_likelihood_gradient"):
+                        getattr(gp, fn)(other.copy())
+                        mu_s, sd_s = gp(q)
+                        mu_s2, S_s2 = gp.build_posterior(q)
+                        if not (np.allclose(mu_s, mu_r, rtol=1e-10, atol=1e-12) and np.allclose(sd_s, sd_r, rtol=1e-10, atol=1e-12)
+                                and np.allclose(mu_s2, mu_r, rtol=1e-10, atol=1e-12)
+                                and np.allclose(np.sqrt(np.abs(np.diag(np.atleast_2d(S_s2)))), sd_r, rtol=1e-7, atol=1e-9)):
+                            ck.violation("predictions depend only on the data and the current hyper-parameters (not on hyper-parameters a score was evaluated at in between)",
+                                         {**idn, "score_called": fn, "before": [mu_r, sd_r], "after": [mu_s, sd_s]}, site="GpRegressor.score:stale-state")
+                            break
                 except Exception as ex:
                     ck.violation("GpRegressor raised on a valid problem", {**idn, **what, "error": repr(ex)[:300]}, site="GpRegressor")
             var = np.asarray(sd, dtype=float) ** 2
